@@ -323,7 +323,13 @@ def i_public(obj):
 def i_input(kind, data):
     if kind == "s":
         return arr(data)
-    return [arr(d) for d in data]
+    seen, out = {}, []
+    for d in data:                      # equal members of a collection are one and the same ndarray object
+        key = repr(d)
+        if key not in seen:
+            seen[key] = arr(d)
+        out.append(seen[key])
+    return out
 
 
 def i_construct(c):
@@ -486,6 +492,8 @@ class IGen:
             kind, data = "s", d
         else:
             data = [self.dgm(None, skew) for _ in range(r.randint(1, 4))]
+            if r.random() < 0.3:            # a collection that repeats a member (bootstrap resample): i_input hands the
+                data.append([list(p) for p in r.choice(data)])   # SAME ndarray object to the code for equal members
             if not for_fit and r.random() < 0.25:
                 data.insert(r.randint(0, len(data)), [])
             kind = "c"
